@@ -380,6 +380,69 @@ fn run_alias<A: DevElem>(c: &AliasCase, lx: &mut Local) {
     });
 }
 
+#[derive(Debug, Clone)]
+struct SizeCase {
+    n: usize,
+    fill: u8,
+    ty: u8,
+}
+
+trait FromI {
+    fn from_i(v: i64) -> Self;
+}
+impl FromI for i32 {
+    fn from_i(v: i64) -> i32 {
+        v as i32
+    }
+}
+impl FromI for i64 {
+    fn from_i(v: i64) -> i64 {
+        v
+    }
+}
+impl FromI for f64 {
+    fn from_i(v: i64) -> f64 {
+        v as f64 * 0.1
+    }
+}
+impl FromI for BigInt {
+    fn from_i(v: i64) -> BigInt {
+        BigInt::from(v)
+    }
+}
+
+/// long operands (size thresholds) and a peak value whose square does not fit the element type
+fn run_size<A: DevElem + FromI>(c: &SizeCase, lx: &mut Local) {
+    let n = c.n;
+    let a: Vec<A> = (0..n).map(|i| A::from_i(((i * 7 + c.fill as usize) % 23) as i64 - 11)).collect();
+    let b: Vec<A> = (0..n)
+        .map(|i| {
+            A::from_i(match c.fill {
+                // equal leading elements, then differences everywhere / only at sparse positions / only at the last position
+                0 => ((i * 7) % 23) as i64 - 11 + if i >= 2 { ((i * 5) % 7) as i64 - 3 } else { 0 },
+                1 => ((i * 7 + 1) % 23) as i64 - 11 + if i % 64 == 63 || i % 128 == 0 { 9 } else { 0 },
+                _ => ((i * 7 + 2) % 23) as i64 - 11 + if i + 1 == n { 5 } else { 0 },
+            })
+        })
+        .collect();
+    let w = want_of(&a, &b);
+    // peak value: large for the fixed-width integer types (its square exceeds the type's range)
+    let maxv = A::from_i(if A::NAME == "i32" { 65535 } else if A::NAME == "i64" { 4_000_000_000 } else { 255 });
+    lx.single(|lx| {
+        let sa = [1isize, -1, 2][(n + c.fill as usize) % 3];
+        let ha = Host1::new(&a, sa, 1, A::from_i(7));
+        let hb = Host1::new(&b, -sa, 1, A::from_i(-7));
+        let ctx = || format!("operands of {} elements (fill {}, strides {} / {}), maxv {:?}", n, c.fill, sa, -sa, maxv);
+        match measure(&ha.view(), &hb.view(), maxv.clone()) {
+            Ok(m) => judge(&m, &w, &maxv, &ctx, lx),
+            Err(e) => {
+                lx.fail("C09/failed", || format!("[{}] {}; {}", A::NAME, e, ctx()));
+                0
+            }
+        }
+    });
+}
+
 fn main() {
     let mut rep = Report::new("C09");
     rep.rule = "case = (operand a, operand b over a 4-value alphabet, element type) with a rotating stride pair (1-D); (shape, layout of a, layout of b, fill, ownership pair, type) in n-D; non-trivial = at least 2 elements".into();
@@ -433,6 +496,22 @@ fn main() {
             match c.ty {
                 0 => run_alias::<i32>(c, lx),
                 _ => run_alias::<f64>(c, lx),
+            }
+        },
+    );
+    let smax = rep.cfg.pick(1100, 4100);
+    let scases = nsmc::patterns::sizes(72, smax).into_iter().filter(|&n| n >= 1).flat_map(|n| (0..3u8).flat_map(move |fill| (0..4u8).map(move |ty| SizeCase { n, fill, ty })));
+    rep.run_sub(
+        "size-sweep",
+        &format!("every length 1..=72 and block / unrolling threshold neighbourhoods up to {} x 3 fills (equal leading elements then dense differences; differences only around multiples of 64; a difference only at the last position) x i32 / i64 / f64 / BigInt on opposite strides; peak value 65535 (i32) / 4e9 (i64) whose square does not fit the element type", smax),
+        scases,
+        |c, lx| {
+            lx.nontrivial(c.n >= 2);
+            match c.ty {
+                0 => run_size::<i32>(c, lx),
+                1 => run_size::<i64>(c, lx),
+                2 => run_size::<f64>(c, lx),
+                _ => run_size::<BigInt>(c, lx),
             }
         },
     );
